@@ -190,6 +190,23 @@ func source(r *rng, layout string, sh []int, base int) (string, int) {
 			}
 		}
 		return fmt.Sprintf("new:rm:%s:%d;slice:0:%s", fints(big), base, strings.Join(parts, "/")), 1
+	case "cmslice": // a column-major parent sliced with FEWER slice arguments than axes
+		if len(sh) < 2 {
+			return fmt.Sprintf("new:cm:%s:%d", s, base), 0
+		}
+		big := append([]int{}, sh...)
+		k := 1 + r.intn(len(sh)-1) // number of slice arguments, 1..rank-1
+		parts := make([]string, k)
+		for i := 0; i < k; i++ {
+			if sh[i] < 2 {
+				parts[i] = "_" // a range over one element would drop the axis
+				continue
+			}
+			lo := r.intn(2)
+			big[i] = sh[i] + lo + r.intn(2)
+			parts[i] = fmt.Sprintf("%d.%d.1", lo, lo+sh[i])
+		}
+		return fmt.Sprintf("new:cm:%s:%d;slice:0:%s", fints(big), base, strings.Join(parts, "/")), 1
 	case "cloneview":
 		p, i := source(r, "stepslice", sh, base)
 		return p + fmt.Sprintf(";clone:%d", i), i + 1
